@@ -2834,10 +2834,10 @@ class LinearOperator(object):
         squeeze_row = False
         squeeze_col = False
         if isinstance(row_index, int):
-            row_index = slice(row_index, row_index + 1, None)
+            row_index = slice(row_index, row_index + 1 or None, None)
             squeeze_row = True
         if isinstance(col_index, int):
-            col_index = slice(col_index, col_index + 1, None)
+            col_index = slice(col_index, col_index + 1 or None, None)
             squeeze_col = True
 
         # Call self._getitem - now that the index has been processed
